@@ -11,9 +11,10 @@ import traceback
 
 
 class Crash(object):
-    def __init__(self, job, reason):
+    def __init__(self, job, reason, pid=None):
         self.job = job
         self.reason = reason
+        self.pid = pid
 
     def __repr__(self):
         return 'Crash(%r)' % (self.reason,)
@@ -109,7 +110,7 @@ def map_jobs(fn, jobs, ncpu=None, init=None, initargs=(), on_result=None,
                 elif not w.p.is_alive():
                     i = w.cur
                     res[i] = Crash(jobs[i], 'worker died, exitcode=%r'
-                                   % (w.p.exitcode,))
+                                   % (w.p.exitcode,), w.p.pid)
                     done += 1
                     if on_result is not None:
                         on_result(i, res[i])
@@ -120,7 +121,8 @@ def map_jobs(fn, jobs, ncpu=None, init=None, initargs=(), on_result=None,
                 i = w.cur
                 w.p.terminate()
                 w.p.join(2)
-                res[i] = Crash(jobs[i], 'timeout after %ss' % job_timeout)
+                res[i] = Crash(jobs[i], 'timeout after %ss' % job_timeout,
+                               w.p.pid)
                 done += 1
                 if on_result is not None:
                     on_result(i, res[i])
